@@ -221,6 +221,7 @@ static void build_theta(bool thorough) {
 }
 
 // ---- tuple ----
+static std::string litem(int i);   // distinct strings longer than the SSO buffer (defined with the quantile item generators)
 typedef compact_tuple_sketch<double> ctuple;
 static std::string use_tuple(const ctuple& s) {
   Dig g;
@@ -234,6 +235,21 @@ static void add_tuple(const std::string& kind, const Bytes& b, size_t preLen) {
   add_image("tuple", kind, b, preLen, b.size(), {
     path_bytes("bytes", [](uint8_t* p, size_t n) { return ctuple::deserialize(p, n); }, use_tuple),
     path_stream([](std::istream& is) { return ctuple::deserialize(is); }, use_tuple),
+  });
+}
+typedef compact_tuple_sketch<std::string> ctuple_s;
+static std::string use_tuple_s(const ctuple_s& s) {
+  Dig g;
+  g.u("empty", s.is_empty()).u("ordered", s.is_ordered()).u("theta", s.get_theta64()).u("n", s.get_num_retained())
+   .u("sh", s.get_seed_hash()).d("est", s.get_estimate());
+  for (const auto& e : s) { g.u("k", e.first).str("v", e.second); }
+  g.bytes("ser", s.serialize());
+  return g.s;
+}
+static void add_tuple_s(const std::string& kind, const Bytes& b, size_t preLen) {
+  add_image("tuple", kind, b, preLen, b.size(), {
+    path_bytes("bytes", [](uint8_t* p, size_t n) { return ctuple_s::deserialize(p, n); }, use_tuple_s),
+    path_stream([](std::istream& is) { return ctuple_s::deserialize(is); }, use_tuple_s),
   });
 }
 typedef compact_array_of_doubles_sketch caod;
@@ -262,6 +278,15 @@ static void build_tuple(bool) {
   add_tuple("exact-ordered", B(mk(5, 6).compact(true).serialize()), 16);
   add_tuple("exact-unordered", B(mk(5, 6).compact(false).serialize()), 16);
   add_tuple("est-ordered", B(mk(5, 150).compact(true).serialize()), 24);
+  // summaries that own heap memory: std::string (default policy appends), every value longer than the SSO buffer
+  auto mks = [](int lgk, int n) {
+    auto u = update_tuple_sketch<std::string>::builder().set_lg_k(lgk).build();
+    for (int i = 0; i < n; i++) u.update((uint64_t)(i * 104729 + 7), litem(i));
+    return u;
+  };
+  add_tuple_s("lstring-single", B(mks(5, 1).compact().serialize()), 8);
+  add_tuple_s("lstring-exact", B(mks(5, 6).compact(true).serialize()), 16);
+  add_tuple_s("lstring-est", B(mks(5, 150).compact(true).serialize()), 24);
   auto mka = [](int lgk, int n) {
     auto u = update_array_of_doubles_sketch::builder(2).set_lg_k(lgk).build();
     std::vector<double> v(2);
@@ -377,7 +402,11 @@ template<class S> static void add_quant(const std::string& family, const std::st
 // one word is longer than the small-string buffer, so that a string item owns heap memory (a leaked item is then visible)
 static std::string sitem(int i) { static const char* w[] = {"a", "bb", "", "dddd", "a-string-beyond-sso-", "f"}; return std::string(w[i % 6]) + std::to_string(i * 37 % 101); }
 template<class T> static T qitem(int i) { return (T)((i * 7919) % 1000 - 300); }
-template<> std::string qitem<std::string>(int i) { return sitem(i); }
+// "lstring" images: every item is a distinct std::string longer than the small-string buffer, so EVERY constructed item owns
+// a heap block and an item that a failing reader forgets to destroy shows up as Leak (a forgotten SSO string is invisible)
+static bool g_long_strings = false;
+static std::string litem(int i) { char b[48]; snprintf(b, sizeof b, "item-%04d-beyond-the-sso-buffer", i); return b; }
+template<> std::string qitem<std::string>(int i) { return g_long_strings ? litem(i) : sitem(i); }
 
 template<class T> static void build_kll_t(const char* tname, bool thorough) {
   typedef kll_sketch<T> S;
@@ -385,6 +414,7 @@ template<class T> static void build_kll_t(const char* tname, bool thorough) {
   std::vector<K> kinds = {{"empty", 8, 0}, {"single", 8, 1}, {"exact", 8, 5}, {"est", 8, 60}};
   if (thorough) { kinds.push_back({"est-deep", 8, 1000}); kinds.push_back({"exact-k20", 20, 19}); }
   for (auto& k : kinds) {
+    if (g_long_strings && k.n == 0) continue;
     S s(k.k);
     for (int i = 0; i < k.n; i++) s.update(qitem<T>(i));
     Bytes b = B(s.serialize());
@@ -398,6 +428,7 @@ template<class T> static void build_req_t(const char* tname, bool thorough) {
                           {"exact-lra", 4, 10, false}, {"est-hra", 4, 120, true}, {"est-lra", 4, 120, false}};
   if (thorough) { kinds.push_back({"est-k6", 6, 400, true}); }
   for (auto& k : kinds) {
+    if (g_long_strings && k.n == 0) continue;
     S s(k.k, k.hra);
     for (int i = 0; i < k.n; i++) s.update(qitem<T>(i));
     Bytes b = B(s.serialize());
@@ -413,6 +444,7 @@ template<class T> static void build_quantiles_t(const char* tname, bool thorough
   std::vector<K> kinds = {{"empty", 4, 0}, {"single", 4, 1}, {"exact", 4, 6}, {"est", 4, 50}};
   if (thorough) { kinds.push_back({"est-k8", 8, 300}); }
   for (auto& k : kinds) {
+    if (g_long_strings && k.n == 0) continue;
     S s(k.k);
     for (int i = 0; i < k.n; i++) s.update(qitem<T>(i));
     Bytes b = B(s.serialize());
@@ -440,6 +472,7 @@ template<class T> static void build_fi_t(const char* tname, bool) {
   typedef frequent_items_sketch<T> S;
   struct K { const char* name; int n; };
   for (auto& k : std::vector<K>{{"empty", 0}, {"few", 4}, {"purged", 40}}) {
+    if (g_long_strings && k.n == 0) continue;
     S s(4);
     for (int i = 0; i < k.n; i++) s.update(qitem<T>(i % 17 + (i % 3 == 0 ? 0 : i)), 1 + i % 4);
     Bytes b = B(s.serialize());
@@ -518,9 +551,11 @@ template<class T> static void build_varopt_t(const char* tname, bool thorough) {
   typedef var_opt_union<T> U;
   random_utils::override_seed(777);
   struct K { const char* name; int k, n, heavy; };
-  std::vector<K> kinds = {{"empty", 8, 0, 0}, {"warmup", 8, 5, 0}, {"full", 8, 40, 0}, {"full-heavy", 8, 40, 2}};
+  // warmup: exact mode (h = n, r = 0); full: r only (equal-ish weights, h = 0); full-heavy / full-heavy4: h > 0 AND r > 0
+  std::vector<K> kinds = {{"empty", 8, 0, 0}, {"warmup", 8, 5, 0}, {"full", 8, 40, 0}, {"full-heavy", 8, 40, 2}, {"full-heavy4", 8, 60, 4}};
   if (thorough) kinds.push_back({"full-k16", 16, 300, 3});
   for (auto& k : kinds) {
+    if (g_long_strings && k.n == 0) continue;
     S s(k.k);
     for (int i = 0; i < k.n; i++) s.update(qitem<T>(i), (i < k.heavy) ? 1000.0 * (i + 1) : 1.0 + (i % 5));
     Bytes b = B(s.serialize());
@@ -551,6 +586,7 @@ template<class T> static void build_ebpps_t(const char* tname, bool thorough) {
   std::vector<K> kinds = {{"empty", 6, 0}, {"single", 6, 1}, {"under-k", 6, 4}, {"partial", 6, 60}};
   if (thorough) kinds.push_back({"partial-k12", 12, 500});
   for (auto& k : kinds) {
+    if (g_long_strings && k.n == 0) continue;
     S s(k.k);
     for (int i = 0; i < k.n; i++) s.update(qitem<T>(i), 1.0 + (i % 4) * 0.5);
     Bytes b = B(s.serialize());
@@ -658,6 +694,14 @@ static void build_catalogue(bool thorough) {
   build_td_t<float>("float", thorough);
   build_density_t<float>("float", thorough);
   build_density_t<double>("double", thorough);
+  g_long_strings = true;
+  build_kll_t<std::string>("lstring", thorough);
+  build_req_t<std::string>("lstring", thorough);
+  build_quantiles_t<std::string>("lstring", thorough);
+  build_fi_t<std::string>("lstring", thorough);
+  build_varopt_t<std::string>("lstring", thorough);
+  build_ebpps_t<std::string>("lstring", thorough);
+  g_long_strings = false;
   apply_documented_padding();
 }
 
